@@ -52,3 +52,56 @@ pub fn class1(args: &[String]) -> String {
         None => "not-scalar".to_string(),
     }
 }
+
+// wrapper <name> <except>: exhaustive check of one `xmlchar::*_except*` parser constructor (and enc_name0): on every
+// scalar value c the parser applied to the one-character string must accept c  iff  class(c) && !except.contains(c)
+// (zero-or-more wrappers: "consumes the character").  Answer: `ok` or `diff:<hex>,<hex>...` (first 8 offenders).
+pub fn wrapper(args: &[String]) -> String {
+    type E<'a> = nom::error::Error<&'a str>;
+    let name = args.first().map(|s| s.as_str()).unwrap_or("");
+    let except = args.get(1).map(|s| s.as_str()).unwrap_or("");
+    let mut bad: Vec<String> = vec![];
+    let mut buf = [0u8; 4];
+    for cp in 0u32..=0x10FFFF {
+        let c = match char::from_u32(cp) {
+            Some(c) => c,
+            None => continue,
+        };
+        let s: &str = c.encode_utf8(&mut buf);
+        let (got, class) = match name {
+            "char_except0" => (
+                matches!(xmlchar::char_except0::<&str, E>(except)(s), Ok((r, _)) if r.is_empty()),
+                xmlchar::is_char(c),
+            ),
+            "char_except1" => (
+                matches!(xmlchar::char_except1::<&str, E>(except)(s), Ok((r, _)) if r.is_empty()),
+                xmlchar::is_char(c),
+            ),
+            "name_char_except1" => (
+                matches!(xmlchar::name_char_except1::<&str, E>(except)(s), Ok((r, _)) if r.is_empty()),
+                xmlchar::is_name_char(c),
+            ),
+            "pubid_char_except0" => (
+                matches!(xmlchar::pubid_char_except0::<&str, E>(except)(s), Ok((r, _)) if r.is_empty()),
+                xmlchar::is_pubid_char(c),
+            ),
+            "enc_name0" => (
+                matches!(xmlchar::enc_name0::<&str, E>(s), Ok((r, _)) if r.is_empty()),
+                xmlchar::is_enc_name(c),
+            ),
+            _ => return "bad-op".to_string(),
+        };
+        let want = class && !except.contains(c);
+        if got != want {
+            bad.push(format!("{:X}", cp));
+            if bad.len() >= 8 {
+                break;
+            }
+        }
+    }
+    if bad.is_empty() {
+        "ok".to_string()
+    } else {
+        format!("diff:{}", bad.join(","))
+    }
+}
